@@ -249,6 +249,22 @@ class DynamicConstantProvider(DelegatingConstantProvider):
                 return
             self._pool.add_constant(value)
 
+    def add_concatenation(self, first: ConstantTypes, second: ConstantTypes) -> None:
+        """Entry point for the instrumented code. Add the concatenation of two strings.
+
+        Used for ``startswith``/``endswith``, whose argument may also be a tuple of
+        strings; in that case nothing is added.
+
+        Args:
+            first: The first part
+            second: The second part
+        """
+        # Might be proxies.
+        first = unwrap(first)
+        second = unwrap(second)
+        if type(first) is str and type(second) is str:
+            self.add_value(first + second)
+
     def add_value_for_strings(self, value: str, name: str):
         """Entry point for the instrumented code. Add a value of a string.
 
